@@ -138,3 +138,7 @@ def replay(case):
     f = lambda ev: [[c[0], [list(w) for w in c[1]], c[2]] for c in ev]  # noqa: E731
     doms = [{"population": d["population"], "transport": d["transport"], "policy": d["policy"]} for d in case["domains"]]
     run_case(_C(), gd, doms, f(case["outcomes"]), f(case.get("conditions") or []), random.Random(0))
+
+
+def install_for_suite():
+    mon_ctf.install_ctf()
